@@ -129,7 +129,7 @@ def check_steps(ctx, cases, tag, claim):
 
 def run(ctx):
     ctx.rule = ("exhaustive: 14 spelling kinds x a pool of ~150 code points (all printable ASCII, TAB, LF, VT, FF, CR, selected non-ASCII) for the item delimiter; "
-                "every property name x 4 formats (applicability); every printable ASCII character as quote / escape / decimal / thousands value; line delimiter, "
+                "every property name x 4 formats (applicability); every printable ASCII character and two-character texts over the valid characters as quote / escape / decimal / thousands value; line delimiter, "
                 "quoting and bool names in mixed case; header / sheet integers; 30 encoding names; all combinations of item delimiter x quote x line delimiter x "
                 "escape x decimal x thousands from small pools for the consistency rules; defaults per format; malformed spellings; distinct = distinct case; "
                 "non-trivial = every case")
@@ -226,6 +226,13 @@ def run(ctx):
     printable = [chr(c) for c in range(32, 127)] + ["", "ab", "é"]
     for name in ("quote character", "escape character", "decimal separator", "thousands separator"):
         for v in printable:
+            cases.append(("delimited", [(name, v)]))
+        # values of more than one character built from the valid ones (and a blank): a set of characters is not a set of texts
+        pool = sorted(valid_sets[name] - {""})[:6] + [" "]
+        for a in pool:
+            for b in pool:
+                cases.append(("delimited", [(name, a + b)]))
+        for v in ("".join(sorted(valid_sets[name] - {""})), " " + pool[0], pool[0] + " ", pool[0] * 3):
             cases.append(("delimited", [(name, v)]))
     for v in ["any", "LF", "Cr", "crlf", "CRLF", "none", "None", "\\n", "lfcr", "", "x"]:
         cases.append(("delimited", [("line delimiter", v)]))
